@@ -26,7 +26,7 @@ SECTION_BASE = """Section GenBase.
   Variables (kleb kltb : K -> K -> bool).
   (* krpow c k x  stands for  x ** (c / k)  (root oracle) *)
   Variable krpow : nat -> nat -> K -> K.
-  (* every definition takes all of the above as parameters, used or not *)
+  (* every definition takes all of the above as arguments, used or not *)
   Let USE := (k0, k1, kadd, kmul, ksub, kopp, kdiv, kleb, kltb, krpow).
   Let copp := copp K kopp. Let cscale := cscale K kmul. Let cdivr := cdivr K kdiv.
   Let cmul := cmul K kadd kmul ksub. Let cpow := cpow K k0 k1 kadd kmul ksub.
@@ -43,7 +43,7 @@ SECTION = """Section Gen.
   Variable evs : list E.
   Variables M_all M_bin M_poi : E -> K.
   Variables Q_all Q_bin Q_poi : nat -> E -> cpx K.
-  (* every definition takes all of the above as parameters, used or not *)
+  (* every definition takes all of the above as arguments, used or not *)
   Let USE := (k0, k1, kadd, kmul, ksub, kopp, kdiv, kleb, kltb, krpow, evs, M_all, M_bin, M_poi, Q_all, Q_bin, Q_poi).
   Let cadd := cadd K kadd. Let csub := csub K ksub. Let copp := copp K kopp.
   Let cmul := cmul K kadd kmul ksub. Let cscale := cscale K kmul. Let cdivr := cdivr K kdiv.
